@@ -256,10 +256,14 @@ func isContainEndpoint(endpoints []*service.Endpoint, endpoint *service.Endpoint
 }
 
 func (c *Config) emitSvcAddEvent(sw *serviceWrapper) {
+	// NOTE: The endpoints of service wrapper are updated in place later, the
+	// event which is handled asynchronously must have its own copy.
+	endpoints := make([]*service.Endpoint, len(sw.Endpoints))
+	copy(endpoints, sw.Endpoints)
 	evt := &SvcAddEvent{
 		Name:      sw.Service.Name,
 		Config:    sw.Config,
-		Endpoints: sw.Endpoints,
+		Endpoints: endpoints,
 	}
 	c.evtCh <- evt
 }
